@@ -876,8 +876,9 @@ fn check_c06(ctx: &Ctx, ti: usize, r: &Ref, case: &Case) -> CaseResult {
                     }
                     res.outcome = format!("Err({kind})");
                 }
-                Out::Panic(m) => {
-                    res.fails.push(fail("specialize", format!("panic:{}", panic_class(m)), m.clone()));
+                Out::Panic(_) => {
+                    // totality of specialize() is decided by C01 (same inputs); not scored twice
+                    res.outcome = "Panic(C01's business)".into();
                 }
             }
             // Descendant::try_from(&parent) for every descendant
@@ -888,6 +889,7 @@ fn check_c06(ctx: &Ctx, ti: usize, r: &Ref, case: &Case) -> CaseResult {
                     (Ok((rv, _)), Out::Ok(g)) if rv == g => {}
                     (Err(DecErr::ConstraintValue), Out::Err { kind, .. }) if kind == "ConstraintValueError" => {}
                     (Err(k), Out::Err { kind, .. }) if *k != DecErr::ConstraintValue && kind != "ConstraintValueError" => {}
+                    (_, Out::Panic(_)) => {} // C01's business
                     (w, g) => res.fails.push(fail("try_from", format!("down-conversion:{}", g.kind()), format!("{} -> {}: reference {:?}, rust {}", c.ancestor, c.descendant, w.as_ref().map(|x| x.0.to_string()), out_brief(g)))),
                 }
             }
